@@ -340,7 +340,10 @@ func onlyFieldStoreOfType(t types.Type, idx int) *ssa.Store {
 // deepFieldChain: fieldChain that sees through struct literals, constructor
 // results and parameters bound by the calls entered.
 func deepFieldChain(v ssa.Value) (root cval, chain []*types.Var) {
-	c := cval{v: stripNum(v)}
+	return deepFieldChainC(cval{v: stripNum(v)})
+}
+
+func deepFieldChainC(c cval) (root cval, chain []*types.Var) {
 	for d := 0; d < 16; d++ {
 		c = unfold(c)
 		switch x := c.v.(type) {
